@@ -564,7 +564,7 @@ pub fn run_case(rng: &mut Rng, profile: &str) -> CaseOut {
                 return out;
             }
             Err(pi) => {
-                out.fail(Fail::panic("checker-panicked", &pi, &format!("re-checking the proof of {ta} = {tb}"), cj.clone()));
+                out.fail(Fail::check_panic(&pi, &format!("re-checking the proof of {ta} = {tb}"), cj.clone()));
                 return out;
             }
         }
